@@ -93,10 +93,13 @@ CHECKS = {
         RUNS + "Cells = (analytic model, algorithmic configuration) of both "
         "samplers, S Hypothesis-drawn seeds per cell; mean error of log Z vs "
         "zero, spread of errors vs reported uncertainty, pooled posterior "
-        "moments vs analytic values, insertion-index p-values. Quick 10 "
-        "cells x 20 seeds (rotating with the seed), thorough 24 x 100.",
+        "moments vs analytic values, insertion-index p-values; two cells "
+        "are killed and resumed. Quick 32 cells (20 seeds for ten of them, "
+        "rotating with the seed, 12 for the others), thorough 33 x 100.",
         "Normal-theory tail bounds; resolution stated in the evidence "
-        "(defects moving log Z by < ~0.4 quick / ~0.12 thorough pass).",
+        "(defects moving log Z of the standard sampler by < ~0.5 with 20 "
+        "seeds / ~1.3 with 12 / ~0.12 thorough pass unless they move the "
+        "posterior moments).",
         "DESIGN.md section 4, C06",
     ),
     "C07": (
@@ -281,10 +284,10 @@ CHECKS = {
         "samplers; outcome must be rejected-up-front or completed with "
         "valid results; late exceptions and unbounded pool populations "
         "(> 2e6 latent draws in one population) are violations keyed by call "
-        "site; all pairs of option values inside three option groups are "
-        "enumerated (365 pairs, a sixth per quick run); importance-sampler "
-        "cases carry the configured-stopping-rule monitor. Quick "
-        "~85 runs, thorough ~700.",
+        "site; all pairs of option values inside four option groups "
+        "(contour, training, flow, levels: 540 pairs) are enumerated, a "
+        "third per quick run; importance-sampler cases carry the "
+        "configured-stopping-rule monitor. Quick ~270 runs, thorough ~900.",
         "Iteration cap on every case; wall-clock backstop = inconclusive.",
         "DESIGN.md section 4, C20",
     ),
